@@ -976,5 +976,6 @@ func (g *Gen) Jobs() []Job {
 	jobs = append(jobs, g.faultJobs()...)
 	jobs = append(jobs, g.orderJobs()...)
 	jobs = append(jobs, g.repeatJobs()...)
+	jobs = append(jobs, g.sizeJobs()...)
 	return jobs
 }
